@@ -305,6 +305,16 @@ class Pattern(Interp):
                         self.declass.add((ctx.qname, norm(n)[:120]))
                         # provenance created by the elementwise expression itself is discharged
                         return PV(PAT, frozenset(p for p in s.prov if not self._within(p, n, ctx)))
+        if len(ops) == 1 and isinstance(ops[0], (ast.Gt, ast.Lt)):
+            # |x| > 0 (0 < |x|) is x != 0: an ordered comparison that still reads only the zero pattern
+            a, b = vals if isinstance(ops[0], ast.Gt) else (vals[1], vals[0])
+            if isinstance(b, PV) and b.lvl == CLEAN and b.const is not NOCONST and b.const is not None and b.const == 0 and not isinstance(b.const, bool):
+                s = flat(a) if not isinstance(a, PV) else a
+                if s.pw is not None and isinstance(s.pw[2], tuple) and s.pw[2][0] == "abs":
+                    ok, wit = signs.pattern_only(s.pw[2])
+                    if ok:
+                        self.declass.add((ctx.qname, norm(n)[:120]))
+                        return PV(PAT, frozenset(p for p in s.prov if not self._within(p, n, ctx)))
         if all(isinstance(o, (ast.Is, ast.IsNot)) for o in ops):
             return PV(min(j.lvl, PAT), j.prov)
         return self.arith(n, ctx, *fl)
